@@ -125,6 +125,20 @@ mod tests {
   }
 }
 
+#[cfg(test)]
+mod table_tests {
+  use super::*;
+  #[test]
+  fn table_native() {
+    for &l in SupportLang::all_langs() {
+      for s in ["$A", "$Z", "$$A", "$_", "$$_", "$$$", "$$$A", "$$$_", "$_X", "$$_X", "$$$_X", "$A_1", "$ZA", "$$Z0",
+                "$a", "$1", "$", "$$", "$$$$", "$$$$A", "$Aa", "$$$a", "$A$B", "A"] {
+        assert!(agrees(&real(l, s), &spec(s.as_bytes())), "{l:?} {s} -> {:?}", real(l, s));
+      }
+    }
+  }
+}
+
 #[cfg(kani)]
 mod proofs {
   use super::*;
@@ -250,16 +264,23 @@ mod proofs {
   /// representative of every expando class, thorough = the six spellings the property names
   /// for every language)
   fn pipeline_lang(lang: SupportLang, lo: usize, hi: usize) {
-    let mut t = lo;
-    while t < hi {
-      let s = TABLE[t];
-      let want = spec(s.as_bytes());
-      let got = real(lang, s);
-      assert!(agrees(&got, &want), "spelling means the same in every language");
-      std::mem::forget(got);
-      t += 1;
+    // which spelling: a symbolic index, case-split so that each run is on a concrete string
+    // (and so that a counterexample names the spelling and can be replayed)
+    let t: usize = kani::any();
+    kani::assume(t >= lo && t < hi);
+    let mut k = lo;
+    while k < hi {
+      if t == k {
+        let s = TABLE[k];
+        let want = spec(s.as_bytes());
+        let got = real(lang, s);
+        assert!(agrees(&got, &want), "spelling means the same in every language");
+        std::mem::forget(got);
+      }
+      k += 1;
     }
-    kani::cover!(true);
+    kani::cover!(t == lo);
+    kani::cover!(t + 1 == hi);
   }
   macro_rules! repr_harness {
     ($name:ident, $lang:ident) => {
@@ -325,19 +346,5 @@ mod proofs {
     kani::cover!(e != '$');
     kani::cover!(e == '$');
     assert!(e == '$' || !(e.is_ascii_uppercase() || e.is_ascii_digit() || e == '_'));
-  }
-}
-
-#[cfg(test)]
-mod table_tests {
-  use super::*;
-  #[test]
-  fn table_native() {
-    for &l in SupportLang::all_langs() {
-      for s in ["$A", "$Z", "$$A", "$_", "$$_", "$$$", "$$$A", "$$$_", "$_X", "$$_X", "$$$_X", "$A_1", "$ZA", "$$Z0",
-                "$a", "$1", "$", "$$", "$$$$", "$$$$A", "$Aa", "$$$a", "$A$B", "A"] {
-        assert!(agrees(&real(l, s), &spec(s.as_bytes())), "{l:?} {s} -> {:?}", real(l, s));
-      }
-    }
   }
 }
